@@ -213,10 +213,18 @@ ELSE_LEADS = ['', 'IF A THEN PRINT "A" : ', 'PRINT "X" : ', 'IF A THEN PRINT "A"
 ELSE_THENS = ['GOSUB 100', 'INPUT Z', 'PRINT "T"', 'Z = 1']
 ELSE_ELSES = ['PRINT "NOT B"', 'GOSUB 100', 'Z = 2']
 ELSE_RESUME = [(lead, a, b, then) for lead in ELSE_LEADS for a in (0, 1) for b in (0, 1) for then in ELSE_THENS]
+# ... and nested IFs with one ELSE each on the same line: a statement of the inner IF that leaves and comes back
+# (or pauses) lands on the OUTER ELSE, with the inner ELSE between it and its THEN
+NESTED_ELSES = ['GOSUB 100', 'INPUT Z', 'PRINT "E2"', 'STOP']
+ELSE_RESUME += [("nested", a, b, (s1, s2)) for a in (0, 1) for b in (0, 1) for s1 in ELSE_THENS for s2 in NESTED_ELSES]
 
 
 def else_resume_program(r, k):
     lead, a, b, then = ELSE_RESUME[k]
+    if lead == "nested":
+        s1, s2 = then
+        return [f"10 A = {a} : B = {b}", f'20 IF A THEN IF B THEN {s1} ELSE {s2} ELSE PRINT "E3"', '30 PRINT "END" Z', "40 END",
+                '100 PRINT "SUB"', "110 RETURN"]
     return [f"10 A = {a} : B = {b}", f"20 {lead}IF B THEN {then} ELSE {r.choice(ELSE_ELSES)}", '30 PRINT "END" Z', "40 END",
             '100 PRINT "SUB"', "110 RETURN"]
 
@@ -266,6 +274,10 @@ def run_c06(chk):
                 enter_program(s, lines)
                 s.line("RUN")
                 s.run_until_idle(replies=[rr.choice(["1", "0", "5", "abc", "-1", "2.5", "x y", "7"]) for _ in range(14)], max_turns=260)
+                if flavour == "else-resume" and s.state == "Idle" and not s.dead and s.ops[-1][1].kind == "row" \
+                        and any(o.startswith("B") for o in s.ops[-1][1].outputs()):
+                    s.line("CONT")      # a STOP in the clause: resume where it stopped
+                    s.run_until_idle(replies=["1", "2"], max_turns=60)
                 last = next((row for _, row in reversed(s.ops) if row.kind == "row" and row.outcome.startswith("err:")), None)
                 for _, row in s.ops:
                     if row.kind in ("panic", "abort"):
